@@ -130,7 +130,7 @@ def check(cx):
     # ---- C16.4 recursion depth -----------------------------------------------------------------------------------
     r4 = cx.rule("C16.4", "PANIC: every recursion cycle among the Parser's methods passes through a method that calls the "
                  "depth guard on every success path (the guard compares the parser's depth field with a constant and "
-                 "fails), and the operator-chain loop of parse_expr_bp charges the guard once per operator", floor=2)
+                 "fails), the operator-chain loop of parse_expr_bp charges the guard once per operator, and the Lexer's methods do not recurse at all", floor=3)
     PARSER = "sql::parser::Parser"
     meths = {g.id: g for g in p.fns.values() if g.impl_adt == PARSER}
     guards = set()
@@ -178,6 +178,34 @@ def check(cx):
                 cx.verdict(good, r4, "operator-chain", g.where(), "each operator application is charged against the depth budget",
                            "the operator-chain loop applies operators without charging the depth guard: `a OR b OR ...` with a "
                            "few hundred terms builds a tree deep enough to overflow the stack downstream (D14)")
+
+    # the lexer: skipped input (comments, unknown characters) must be consumed iteratively — no recursion cycle among
+    # the Lexer's methods at all (there is no depth to charge: the depth would be the length of the skipped run)
+    LEX = "sql::parser::lexer::Lexer"
+    lm = {g.id for g in p.fns.values() if g.impl_adt == LEX or (g.root or "").startswith(LEX + "::")}
+    if len(lm) < 8:
+        cx.bad(r4, "lexer-recursion:anchor-missing", "", "Lexer methods not found")
+    else:
+        ledges = {a: {b for b in p.edges().get(a, ()) if b in lm} for a in lm}
+        lcyc = []
+        col = {}
+
+        def dfs2(u, path):
+            col[u] = 1
+            for v in sorted(ledges.get(u, ())):
+                if col.get(v) == 1:
+                    lcyc.append(path[path.index(v):] + [v] if v in path else [u, v])
+                elif col.get(v) is None:
+                    dfs2(v, path + [v])
+            col[u] = 2
+        for u in sorted(lm):
+            if col.get(u) is None:
+                dfs2(u, [u])
+        nt = p.fns.get(LEX + "::next_token")
+        cx.verdict(not lcyc, r4, "lexer-recursion", nt.where() if nt else "",
+                   "no recursion among the %d Lexer methods: skipped input is consumed in a loop" % len(lm),
+                   "the lexer recurses (%s): one stack frame per skipped comment/unknown character, so a statement with a "
+                   "long run of them overflows the stack and aborts the process (D33)" % [[x.rsplit("::", 1)[-1] for x in c] for c in lcyc[:2]])
 
     # ---- C16.5 loops ---------------------------------------------------------------------------------------------------
     r5 = cx.rule("C16.5", "LOOP: every lexer loop that calls advance() contains a test of current_char for end of input "
